@@ -44,6 +44,9 @@ EXTRA = ['CN(=O)=O', 'C[N+](=O)[O-]', 'CN=[N+]=[N-]', 'CN=N#N', 'C[S+](C)[O-]', 
          '[O-]C(C)=C1C=C(C=[N+](C)C)C=C1', '[O-]C(C)=C1C=CC(C=[N+](C)C)=C1', '[O-]C1=CC=C(C=C1)C=[N+](C)C', '[O-]C=CC=CC=[N+](C)C',
          '[O-]C(C)=C1C=CC(=CC=C1)C=[N+](C)C', 'C[N+](C)=C1C=CC(=C[O-])C=C1', '[O-]C(=C1C=CC(=C1)C=[NH+]C)c1ccccc1', '[O-]C(C)=C1C=C(C=[O+]C)C=C1',
          'CC(=[O+]C)C=CC=C[N-]C', '[CH2-]C=CC=[N+](C)C', '[O-]C(C)=C1C(C)=C(C=[N+](C)C)C=C1C', 'C[N+](C)=CC=C[O-]',
+         # ammonium / iminium zwitterions conjugated with an anion (hydrogens on the cation are substituents too)
+         '[O-]C=C[NH3+]', '[O-]C=CC=C[NH3+]', '[O-]C=C[NH2+]C', 'C[NH2+]C=C[O-]', '[O-]C(C)=CC=C[NH3+]', '[NH3+]C=CC([O-])=O', '[O-]C=C[NH+](C)C', '[S-]C=C[NH3+]',
+         'C[NH2+]C=CC=C[O-]', '[O-]C=C[PH3+]', '[NH3+]C=C[CH-]C(C)=O', '[O-]C=C[SH2+]', 'C[SH+]C=C[O-]', 'C[PH2+]C=CC=C[O-]', '[O-]C=C[OH2+]',
          # quinoid aza-indoles / carbolines (anhydro bases) and their N-H parents
          'N1C=CC2=NC=CC2=C1', 'CN1C=CC2=NC=CC2=C1', 'CN1C=CC2=CC=NC2=C1', 'CN1C=CC=C2N=CC=C12', 'CN1C=CC2=C3C=CC=CC3=NC2=C1', 'C1=CC=CC=C1N1C=CC2=NC=CC2=C1',
          '[H]OC', '[H]N([H])C(=O)C', '[2H]OC', 'C[C@H](N)C(=O)O', 'C[C@H]([NH3+])C([O-])=O', 'OC[C@H](O)[C@@H](O)[C@H](O)[C@H](O)C=O']
